@@ -5,6 +5,7 @@ import MaltModel.Spec.Dynamic
 import MaltModel.Proofs.C08Activity
 import MaltModel.Proofs.C08Dynamic
 import MaltModel.Proofs.C08Classes
+import MaltModel.Proofs.C08Nested
 /-
 C08 — scope (activity) analysis matches Python's own binding rules.
 
@@ -21,6 +22,8 @@ Theorems (all for every program of the stated fragment, every analyzer state; no
   C08_dynamic_lookup  the same through `anno?` (the lookup C06/C07 use), when annotations are unique per node
   C08_classes_partial parameters, bound locals, declared globals/nonlocals, free variables of the root function of a
                       tree = those of `Spec.table`, when nested functions' parameters do not leak harmfully
+  C08_classes_nested  parameters, bound locals, declared globals/nonlocals of *every* function definition nested in
+                      statement position anywhere in the tree = those of its block in `Spec.table`
 The fragment `FragS` excludes comprehensions, parameter annotations, async constructs and
 `EXTRA_LOOP_TEST`; these are covered by the correspondence and the oracles only.
 -/
@@ -123,10 +126,10 @@ theorem C08_dynamic_lookup (t : Stmt) (hf : FragS t = true) (hu' : uniqueAnnos (
    parameters, bound locals, declared globals, declared nonlocals and free variables (the root has none on either
    side) under `harmfulLeaks t = []` (the other classes concern the free variables of nested functions or lie
    outside the fragment).
-   Missing: functions nested below the root — their parameters / bound / globals / nonlocals follow from the same
-   local argument (`functionDef_recorded`, `effSs_sets`, `collectSs_spec` hold in every statement-level state), what
-   is not proved is the lookup of their annotations by node id and the equality of their free variables, which
-   needs the propagation of `read - bound` through nested scopes; comprehensions and annotated parameters. -/
+   `C08_classes_nested` extends the first four to every function definition nested in statement position.
+   Missing: the free variables of nested functions (needs the propagation of `read - bound` through nested scopes,
+   where the classes `classShadow`, `nonlocalBelow`, `globalBelow` live); lambdas; comprehensions and annotated
+   parameters. -/
 
 /-- **Classification of the root function.**  For every function definition `t` of the fragment on which the
     analysis and Python agree statement by statement (`SpecOkS`), whose nested functions' parameters are all
@@ -148,7 +151,7 @@ theorem C08_classes_partial (i : Nat) (name : String) (ai : Nat) (po ar va ko kd
   have hu := unique_of_bool _ hu'
   subst ht
   -- the model side
-  obtain ⟨cI, ca, rest, hann, hca, hcI, hpar⟩ :=
+  obtain ⟨cI, ca, rest, hann, hca, hcI, hpar, -⟩ :=
     functionDef_recorded i name ai po ar va ko kd kw df body decos returns St.init [] init_plainS hf
   have hann' : (analyze (.functionDef i name (.arguments ai po ar va ko kd kw df) body decos returns false)).annos
       = (i, .argsAndBodyScope, cI) :: rest := hann
@@ -257,6 +260,112 @@ theorem C08_classes_partial (i : Nat) (name : String) (ai : Nat) (po ar va ko kd
     have := hdisj x
     grind
 
+/-- The analysis and the specification agree on the function definition `d`: looked up by node id, the
+    ARGS_AND_BODY scope and the scope of the `arguments` node yield the same parameters, bound locals, declared
+    globals and declared nonlocals as the symbol table entry of `d`'s block. -/
+def DefMatches (st : St) (tab : List BlockInfo) : Stmt → Prop
+  | .functionDef i _ (.arguments ai _ _ _ _ _ _ _) _ _ _ _ =>
+      ∃ cI ca info, st.anno? i .argsAndBodyScope = some cI ∧ st.anno? ai .scope = some ca ∧ info ∈ tab ∧ info.id = i ∧
+        (∀ x, x ∈ ca.paramNames.names ↔ x ∈ info.params) ∧
+        (∀ x, (x ∈ cI.bound.names ∧ x ∉ cI.globals.names ∧ x ∉ cI.nonlocals.names) ↔ x ∈ info.locals) ∧
+        (∀ x, x ∈ cI.globals.names ↔ x ∈ info.declaredGlobals) ∧
+        (∀ x, x ∈ cI.nonlocals.names ↔ x ∈ info.declaredNonlocals)
+  | _ => True
+
+/-- **Classification of every function definition of the tree.**  Under the hypotheses of `C08_classes_partial`
+    (with the disjointness of `global`/`nonlocal` declarations required of every block), *every* (non-async)
+    function definition nested in statement position anywhere in the tree — in branches, loops, `with`/`try`
+    blocks, class bodies, other functions — has the same parameters, bound locals, declared globals and declared
+    nonlocals according to the analysis as according to Python's symbol table.
+    (Not covered: lambdas; the free variables of nested functions.) -/
+theorem C08_classes_nested (i : Nat) (name : String) (ai : Nat) (po ar va ko kd kw df : List Expr) (body : List Stmt)
+    (decos returns : List Expr) (t : Stmt)
+    (ht : t = .functionDef i name (.arguments ai po ar va ko kd kw df) body decos returns false)
+    (hf : FragS t = true) (hs : SpecOkS t = true) (hu' : uniqueAnnos (analyze t).annos = true)
+    (hleak : harmfulLeaks t = []) (hd : allDeclsDisjoint t = true) :
+    ∀ d ∈ defsS t, DefMatches (analyze t) (Spec.table t) d := by
+  have hu := unique_of_bool _ hu'
+  subst ht
+  intro d hdd
+  obtain ⟨hdf, hds⟩ := defsS_frag _ hf hs d hdd
+  have hok := visitS_defs _ St.init [] init_plainS hf d hdd
+  -- the block tree of the root
+  have hblk := blockOf_functionDef i name ai po ar va ko kd kw df body decos returns false
+  have hf' := hf
+  simp only [FragS, Bool.and_eq_true, Bool.not_eq_true'] at hf'
+  have hbody : FragSs body = true := hf'.2
+  have hsb : SpecOkSs body = true := by simpa [SpecOkS] using hs
+  have hC := collectSs_spec body hbody hsb { params := (po ++ ar ++ ko ++ va ++ kw).filterMap paramName }
+  obtain ⟨new, hnew, hwnew, hdnew⟩ := (collectSs_blocks body hbody hsb { params := (po ++ ar ++ ko ++ va ++ kw).filterMap paramName }).ext
+  simp only [List.nil_append] at hnew
+  have hall : allBlocks (mkDefBlock (.functionDef i name (.arguments ai po ar va ko kd kw df) body decos returns false)) =
+      mkDefBlock (.functionDef i name (.arguments ai po ar va ko kd kw df) body decos returns false) :: allBlocksL new := by
+    simp only [mkDefBlock, Acc.toBlock, allBlocks, hnew]
+  have hmem : mkDefBlock d ∈ allBlocks (mkDefBlock (.functionDef i name (.arguments ai po ar va ko kd kw df) body decos returns false)) := by
+    simp only [defsS, List.mem_cons] at hdd
+    rw [hall]
+    rcases hdd with rfl | hdd
+    · exact List.mem_cons_self
+    · exact List.mem_cons_of_mem _ (hdnew _ (List.mem_map.mpr ⟨d, hdd, rfl⟩))
+  have hw : ∀ b' ∈ allBlocks (mkDefBlock (.functionDef i name (.arguments ai po ar va ko kd kw df) body decos returns false)),
+      b'.walrus = [] := by
+    intro b' hb'
+    rw [hall] at hb'
+    simp only [List.mem_cons] at hb'
+    rcases hb' with rfl | hb'
+    · simpa [mkDefBlock, Acc.toBlock, Block.walrus] using hC.walrus
+    · exact hwnew b' hb'
+  obtain ⟨info, hinfo, hfacts⟩ := table_all _ 0 [] [] hw (mkDefBlock d) hmem
+  have htab : info ∈ Spec.table (.functionDef i name (.arguments ai po ar va ko kd kw df) body decos returns false) := by
+    simp only [Spec.table, hblk]; exact hinfo
+  -- no harmful leak, no global/nonlocal clash, in any block
+  have hroot : leaksBs ((mkDefBlock (.functionDef i name (.arguments ai po ar va ko kd kw df) body decos returns false)).params ++
+      (mkDefBlock (.functionDef i name (.arguments ai po ar va ko kd kw df) body decos returns false)).binds ++
+      (mkDefBlock (.functionDef i name (.arguments ai po ar va ko kd kw df) body decos returns false)).globals ++
+      (mkDefBlock (.functionDef i name (.arguments ai po ar va ko kd kw df) body decos returns false)).nonlocals)
+      (mkDefBlock (.functionDef i name (.arguments ai po ar va ko kd kw df) body decos returns false)).children = [] := by
+    have := hleak
+    simp only [harmfulLeaks, hblk, Acc.toBlock] at this
+    simp only [mkDefBlock, Acc.toBlock, Block.params, Block.binds, Block.globals, Block.nonlocals, Block.children]
+    apply List.eq_nil_iff_forall_not_mem.mpr
+    intro y hy
+    have h3 := List.mem_eraseDups.mpr hy
+    rw [this] at h3
+    exact List.not_mem_nil h3
+  have hdisjAll := disj_all (mkDefBlock (.functionDef i name (.arguments ai po ar va ko kd kw df) body decos returns false))
+    (by simpa [allDeclsDisjoint, hblk, mkDefBlock] using hd) (mkDefBlock d) hmem
+  -- the definition `d` itself
+  cases d with
+  | functionDef i' name' args' body' decos' returns' isAsync' =>
+    cases args' with
+    | arguments ai' po' ar' va' ko' kd' kw' df' =>
+      have hkind : (mkDefBlock (.functionDef i' name' (.arguments ai' po' ar' va' ko' kd' kw' df') body' decos' returns' isAsync')).kind.isComp = false := by
+        simp [mkDefBlock, Acc.toBlock, Block.kind, BlockKind.isComp]
+      have hlk : leaksBs
+          ((mkDefBlock (.functionDef i' name' (.arguments ai' po' ar' va' ko' kd' kw' df') body' decos' returns' isAsync')).params ++
+           (mkDefBlock (.functionDef i' name' (.arguments ai' po' ar' va' ko' kd' kw' df') body' decos' returns' isAsync')).binds ++
+           (mkDefBlock (.functionDef i' name' (.arguments ai' po' ar' va' ko' kd' kw' df') body' decos' returns' isAsync')).globals ++
+           (mkDefBlock (.functionDef i' name' (.arguments ai' po' ar' va' ko' kd' kw' df') body' decos' returns' isAsync')).nonlocals)
+          (mkDefBlock (.functionDef i' name' (.arguments ai' po' ar' va' ko' kd' kw' df') body' decos' returns' isAsync')).children = [] := by
+        rw [hall] at hmem
+        simp only [List.mem_cons] at hmem
+        rcases hmem with he | hmem
+        · rw [he]; exact hroot
+        · have hch : (mkDefBlock (.functionDef i name (.arguments ai po ar va ko kd kw df) body decos returns false)).children = new := by
+            simp only [mkDefBlock, Acc.toBlock, Block.children, hnew]
+          rw [hch] at hroot
+          exact leakFree_allL new _ hroot _ hmem hkind
+      simp only [FragS, Bool.and_eq_true] at hdf
+      simp only [SpecOkS] at hds
+      obtain ⟨cI, ca, h1, h2, hb, hg, hn, hp⟩ := hok
+      obtain ⟨hid, hps, hls, hgs, hns⟩ :=
+        def_matches i' name' ai' po' ar' va' ko' kd' kw' df' body' decos' returns' isAsync' hdf.2 hds cI ca hb hg hn hp info hfacts hlk hdisjAll
+      refine ⟨cI, ca, info, ?_, ?_, htab, hid, hps, hls, hgs, hns⟩
+      · rw [St.anno?, find_of_unique _ hu i' .argsAndBodyScope cI h1]; rfl
+      · rw [St.anno?, find_of_unique _ hu ai' .scope ca h2]; rfl
+    | _ => simp [FragS] at hdf
+  | _ => trivial
+
 /-! ### instances: the hypotheses are satisfiable, the exclusions are necessary -/
 
 /-- `def f(a): x = a; x += 1; (with a as y: del y); (def g(): return x); if x: return g`. -/
@@ -281,6 +390,11 @@ example : SpecOkS sampleTree = true ∧ uniqueAnnos (analyze sampleTree).annos =
 example : ((classify sampleTree (analyze sampleTree) 1 []).map fun c => (c.params, c.locals.length)) = some (["a"], 4) := by decide
 example : kind (table sampleTree) 1 "x" = .local ∧ kind (table sampleTree) 1 "a" = .param ∧
     kind (table sampleTree) 16 "x" = .free := by decide
+
+/-- the nested theorem applies to the sample tree: both `f` and the nested `g` are matched -/
+example : (defsS sampleTree).length = 2 ∧ allDeclsDisjoint sampleTree = true := by decide
+example : ∀ d ∈ defsS sampleTree, DefMatches (analyze sampleTree) (table sampleTree) d :=
+  C08_classes_nested _ _ _ _ _ _ _ _ _ _ _ _ _ sampleTree rfl (by decide) (by decide) (by decide) (by decide) (by decide)
 
 /-- `def f(c): k = (lambda N: N)(1); return k + N` — the parameter `N` of the lambda leaks into `f`'s bound
     locals, although `N` is a global name in `f`. -/
